@@ -30,6 +30,7 @@ var families = []family{
 	{"truncation", famTruncation},
 	{"corruption", famCorruption},
 	{"writer-failure", famWriterFailure},
+	{"concurrent-writers", famInterleave},
 }
 
 func scenarios(tier string) []engine.Scenario {
@@ -95,14 +96,17 @@ func expect(tier string) []string {
 	for _, d := range decoders {
 		ex = append(ex, "decoder="+d.name)
 	}
-	ex = append(ex, "history=fresh", "history=constructed-other", "history=decoded-other", "history=same-value")
+	ex = append(ex, "history=fresh", "history=constructed-other", "history=decoded-other", "history=same-value", "history=grown-receiver")
+	for _, p := range interleavePool {
+		ex = append(ex, "interleave-other="+p[0])
+	}
 	for _, s := range streamReaders {
 		ex = append(ex, "stream-reader="+s.name)
 	}
 	for _, b := range bufSizes {
 		ex = append(ex, "frag-buffer="+bufName(b))
 	}
-	ex = append(ex, "frag-chunks=full", "frag-chunks=short-reads", "frag-chunks=eof-with-data", "frag-chunks=zero-nil-read")
+	ex = append(ex, "frag-chunks=full", "frag-chunks=short-reads", "frag-chunks=eof-with-data", "frag-chunks=zero-nil-read", "frag-chunks=two-chunks")
 	ex = append(ex, "trunc-decoder=UnmarshalBinary", "trunc-decoder=ReadFrom(bufio.Reader)", "trunc-decoder=json.Unmarshal")
 	ex = append(ex, "corrupt-decoder=UnmarshalBinary", "corrupt-decoder=ReadFrom(bufio.Reader)", "corrupt-decoder=json.Unmarshal",
 		"corrupt-width=0", "corrupt-width=1", "corrupt-width=4", "corrupt-width=8", "corrupt-result=rejected-with-error", "corrupt-result=accepted-valid-object")
@@ -129,10 +133,10 @@ func main() {
 			"Leaves (choice points) and what each batches: entrypoints = one leaf per writing entry point (MarshalBinary, 8 writers, BinarySize, JSON); " +
 			"receiver = one leaf per history kind (fresh / constructed as / having decoded [/ two decodes, thorough]) looping over every decoder and every catalogue value of the type as previous content; " +
 			"stream = one leaf per (partner object B, shared buffer.Reader kind) for the stream A|B|A; " +
-			"fragmentation = leaf 0: all reader buffer sizes direct/16/17/100/4096 with the whole data available, then one leaf per chunking class over all buffer sizes ( short reads 1/2/7/9/1000/halves, io.EOF together with data, one (0,nil) read at each position); " +
+			"fragmentation = leaf 0: all reader buffer sizes direct/16/17/100/4096 with the whole data available, then one leaf per chunking class over all buffer sizes ( short reads 1/2/7/9/1000/halves, io.EOF together with data, one (0,nil) read at each position, two chunks split at each byte); " +
 			"truncation = one leaf over every decoder and every cut offset (all offsets up to 4 KiB, else first 256 + every 64th + last 8; thorough: all); " +
 			"corruption = one leaf over every decoder and every located header field (each of the first 64 bytes, every small LE u32/u64, every byte of JSON texts) x {0,1,2,0xff,orig+-1,2^63,2^64-1,2^20,2^31,2^32-1} (JSON: 8 bit flips + 3 bytes), allocation-driving lengths probed at 2^19, attributed to the decoder function that reads the field (traced reader calls) and confirmed once per such function above 80 MiB; " +
-			"writer-failure = one leaf per failing writer kind over every failure offset. Fault-point executions run in a helper process so that fatal errors are observations. " +
+			"writer-failure = one leaf per failing writer kind over every failure offset; concurrent-writers = one leaf per interleaving of the Write calls of two objects serialized by two goroutines to two gating writers (every interleaving up to 400 / 6000 per pair). Fault-point executions run in a helper process so that fatal errors are observations. " +
 			"distinct_nontrivial counts distinct (scenario, environment, observed result) classes.",
 		Assumptions: []string{
 			"back-to-back reads from one stream go through ONE shared reader implementing lattigo's buffer.Reader (bufio.Reader or buffer.Buffer); for a plain io.Reader the library documents a read-ahead bufio wrapper, so only the returned count is checked there",
